@@ -34,7 +34,8 @@ CASE_DEADLINE = 20
 def setup(ctx):
     from smartquery import SqParser
     from smartquery import functions
-    ctx.P = SqParser()
+    ctx.P0 = ctx.P = SqParser()
+    ctx.PC = SqParser(parse_cache={})
     ctx.table = dict(functions.FUNCTIONS)
     ctx.name_of = {id(v): k for k, v in ctx.table.items()}
     ctx.M1 = monitors.NodeMonitor()
@@ -154,8 +155,27 @@ def run_case(case, ctx):
         budget = case[2]
     rn = copy.deepcopy(names0)
     ref, m = refeval.run(tree, rn, budget if budget is not None else 100, ref_ast)
-    # implementation
+    # implementation: on the plain parser, or as the SECOND evaluation of the same text on a caching parser (the tree has been evaluated before:
+    # anything remembered on its nodes must not show), sometimes after an arbitrary earlier call, sometimes with a non-dict names mapping
+    mode = r.randrange(10)
+    P = ctx.P0
+    if mode < 3:
+        P = ctx.PC
+        try:
+            P.eval(src, copy.deepcopy(gen2.host_names(random.Random(r.getrandbits(30)))), impl_ast, 10 ** 5)
+        except Exception:
+            pass
+        ctx.count('second_evaluations_of_a_cached_tree')
+    elif mode == 3:
+        from lib import gram
+        gram.earlier_call(P, r)
+        ctx.count('programs_preceded_by_an_arbitrary_earlier_call')
+    ctx.P = P
     inn = copy.deepcopy(names0)
+    if mode == 4:
+        import collections
+        inn = collections.UserDict(inn)
+        ctx.count('programs_with_a_UserDict_names_mapping')
     M1 = ctx.M1
     M1.reset()
     M1.lambdas.clear()
@@ -188,11 +208,11 @@ def run_case(case, ctx):
         what = 'value differs from the reference semantics'
         last = m.last_statement
         if ref[1] is None and last is not None and last[0] == 'Call' and last[1] in ('__setitem__', '__setitem_with_op__') and got[1] is not None \
-                and names_same(ctx, inn, rn):
+                and names_same(ctx, dict(inn), rn):
             finding = 'setitem-statement-value'
-    elif not names_same(ctx, inn, rn):
+    elif not names_same(ctx, dict(inn), rn):
         what = 'host names after the call differ from the reference semantics'
-        detail['names_impl'] = repr({k: inn[k] for k in inn if k not in names0 or True})[:300]
+        detail['names_impl'] = repr(dict(inn))[:300]
         detail['names_ref'] = repr(rn)[:300]
     if what is None:
         st = ctx.state[0]
